@@ -19,6 +19,9 @@ structure NameTables where
   spans : List (Nat × Nat)       -- InstNameIndex::data[26] = {start, end}
   strtab : Nat                   -- _inst_name_string_table (base-256 number, see above)
   nametab : List Nat             -- _inst_name_index_table (one 32-bit name value per id)
+  /-- `sorted_id_table` of `find_instruction` (fixes/C13-8): `[]` = nullptr (ids are sorted by name, spans are ids),
+      otherwise the instruction ids sorted by name and the spans are positions in this table -/
+  sortedIds : List Nat := []
 
 structure AliasTables where
   count : Nat                    -- InstDB::kAliasTableSize
@@ -76,8 +79,12 @@ def bsearch (key : Nat → List Nat) (s : List Nat) : Nat → Nat → Nat → Op
     else if r > 0 then bsearch key s fuel (i + 1) ((lim - 1) / 2)
     else some i
 
-/-- name of id `i` as `find_instruction` decodes it -/
-def keyOf (T : NameTables) (i : Nat) : List Nat := decodeToBuffer (T.nametab.getD i 0) false T.strtab
+/-- `inst_id = sorted_id_table ? sorted_id_table[index] : index` -/
+def idAt (T : NameTables) (i : Nat) : Nat :=
+  if T.sortedIds = [] then i else T.sortedIds.getD i 0
+
+/-- name at search position `i` as `find_instruction` decodes it -/
+def keyOf (T : NameTables) (i : Nat) : List Nat := decodeToBuffer (T.nametab.getD (idAt T i) 0) false T.strtab
 
 /-- `InstNameUtils::find_instruction` (0 = kIdNone). `s` must be non-empty (asserted in C++). -/
 def findInstruction (T : NameTables) (s : List Nat) : Nat :=
@@ -88,7 +95,9 @@ def findInstruction (T : NameTables) (s : List Nat) : Nat :=
     if c < 97 ∨ c > 122 then 0 else
     let sp := T.spans.getD (c - 97) (0, 0)
     if sp.1 = 0 then 0 else
-    (bsearch (keyOf T) s (sp.2 - sp.1) sp.1 (sp.2 - sp.1)).getD 0
+    match bsearch (keyOf T) s (sp.2 - sp.1) sp.1 (sp.2 - sp.1) with
+    | some i => idAt T i
+    | none => 0
 
 def aliasKeyOf (A : AliasTables) (i : Nat) : List Nat := decodeToBuffer (A.nametab.getD i 0) false A.strtab
 
